@@ -4,8 +4,19 @@
 //@ enditem
 //@ item src/sources/ping/eventfd.rs / struct ArcAsFd props=C03
 //@ enditem
-//@ item src/sources/ping/eventfd.rs / impl AsFd for ArcAsFd props=C03
+//@ region arcasfd_axiom props=C03
+/// ASSUMED: the descriptor of the newtype wrapper is the descriptor of what it wraps
+#[verifier::external_body]
+proof fn axiom_arcasfd_fd(a: &ArcAsFd)
+    ensures crate::ext::fd_raw(a) == crate::ext::fd_raw(&a.0),
+{}
+//@ endregion
+//@ open src/sources/ping/eventfd.rs / impl AsFd for ArcAsFd
+//@ item src/sources/ping/eventfd.rs / impl AsFd for ArcAsFd / fn as_fd props=C03
+//@ entry
+        proof { axiom_arcasfd_fd(self); }
 //@ enditem
+//@ close
 
 //@ region ping_specs props=C03
 /// the value of the eventfd counter that the (single) drain of this event reads: +2 per ping, +1 for the close
